@@ -163,6 +163,8 @@ def unit_block(U):
                 hy.append(z3.And(tv != keyz, gv != keyz))       # ids in the file differ from generated '<featuretype>_<n>' keys
             U.prove(base + ".noself#p%d" % p.index, "no inserted row relates a feature to itself (explicit gene / transcript lines are never their own parent or child); a transcript line is a level-1 child of its gene only",
                     list(p.pc) + hy, z3.And(*noself) if noself else z3.BoolVal(True), vars_, replay=replay)
+    from pyvc.harness import require_loop_state
+    require_loop_state(C._GTFDBCreator._populate_from_lines, {0: ("lines_seen",)}, "the generic-row rule (C03.gtf.step)")
 
 
 def _finish_run(it, dis_g, dis_t, nrows, same_gene, keep=False, on_execute=None, id_spec=None):
@@ -308,6 +310,8 @@ def unit_finish(U):
                 created = [x.args[0] for x in effs if x.kind == "tmp-create"]
                 unlinked = [x.args[0] for x in effs if x.kind == "unlink"]
                 U.prove(base + ".tempfile#p%d" % p.index, "the temp file is created once and removed", [], z3.BoolVal(len(created) == 1 and unlinked == created), {}, replay=replay)
+    from pyvc.harness import require_loop_state
+    require_loop_state(C._GTFDBCreator._update_relations, {0: ("last_perc",), 1: ("last_gene_id", "n_features"), 2: ()}, "the generic-row rule (C03.gtf.finish)")
 
 
 def unit_route(U, prefix="C03"):
